@@ -69,7 +69,7 @@ func (s c06script) expect() (fire time.Duration, accepted []bool, n int) {
 func genC06(rng *rand.Rand) c06script {
 	mins := []time.Duration{100 * time.Millisecond, 400 * time.Millisecond, time.Second, 4 * time.Second, 10 * time.Second}
 	s := c06script{
-		K:    []int{0, 1, 2, 2, 3, 5}[rng.Intn(6)],
+		K:    []int{0, 1, 2, 2, 3, 5, -1}[rng.Intn(7)], // (-1: what a SuspicionMult of 1 yields)
 		Min:  mins[rng.Intn(len(mins))],
 		From: "acc",
 	}
@@ -172,6 +172,8 @@ type c06e2e struct {
 	// offsets (from suspicion start) at which claims about the target that are OLDER than what V holds
 	// arrive (dead, suspect from a fresh name, alive): they must not change anything
 	Noise []time.Duration `json:"stale_noise_at_ns,omitempty"`
+	// SuspicionMult (0 = the default 4); 1 makes the number of expected confirmations negative
+	Mult int `json:"suspicion_mult,omitempty"`
 }
 
 const c06TInc = 3 // the target's incarnation, so that older claims about it exist
@@ -187,6 +189,9 @@ func runC06E2E(run *Run, seed int64, sc c06e2e) (out []*c01Result) {
 		cf.GossipInterval = 200 * time.Millisecond
 		cf.IndirectChecks = 1
 		cf.DisableTcpPings = true
+		if sc.Mult > 0 {
+			cf.SuspicionMult = sc.Mult
+		}
 	}}})
 	if err != nil {
 		fail("harness/create", "%v", err)
@@ -300,6 +305,9 @@ func runC06E2E(run *Run, seed int64, sc c06e2e) (out []*c01Result) {
 		return
 	}
 	run.Cell("e2e-start", fmt.Sprintf("k=%d", k), fmt.Sprintf("health=%d", m.GetHealthScore()))
+	if sc.Mult > 0 {
+		run.Cell("e2e-mult", fmt.Sprint(sc.Mult))
+	}
 	start := info.Start
 	script := c06script{K: k, Min: min, Max: max, From: "V"}
 	// deliver confirmations at their offsets (relative to start)
@@ -548,6 +556,9 @@ func TestC06(t *testing.T) {
 			}
 		}
 		sc.Prehistory = []string{"", "rejoin-newaddr", "come-and-go", "meta-update", "addr-conflict"}[rng.Intn(5)]
+		if i%5 == 3 {
+			sc.Mult = []int{1, 2}[(i/5)%2]
+		}
 		for j, nn := 0, rng.Intn(4); j < nn; j++ {
 			sc.Noise = append(sc.Noise, time.Duration(150+rng.Intn(5000))*time.Millisecond+53*time.Microsecond)
 		}
